@@ -32,7 +32,7 @@ STRICT_OK = ['/a', '/a/', '/a/b', '/<x>', '/<x>/', '/a/<n:int>', '/<x>/<y>', '/a
 PATHS = ['/', '/a', '/a/', '/a/b', '/a/b/', '/a/7', '/b', '/b/q', '/q', '/q/', '/a/b/c', '//a', '/a//b', '/a/7/',
          '/c/5', '/c/5/', '/c/x/', '/b/', '/a/07']
 METHODS = ['GET', 'HEAD', 'POST', 'PUT', 'DELETE', 'get', 'post', 'FOO', 'OPTIONS']
-METHOD_SETS = [None, None, ['GET'], ['POST'], ['get', 'PUT'], ['DELETE', 'POST'], ['HEAD'], ['GET', 'POST', 'PUT']]
+METHOD_SETS = [None, None, [], ['GET'], ['POST'], ['get', 'PUT'], ['DELETE', 'POST'], ['HEAD'], ['GET', 'POST', 'PUT']]
 OUTCOMES = ['ok', 'ok', 'ok', 'brk404', 'brk503', 'brk409_ret', 'brk400_ret', 'nb403_raise', 'nb404_ret', 'nb404_raise', 'nb403_ret', 'boom']
 class SimTemplateError(LookupError):
     pass
